@@ -39,8 +39,9 @@ func (g group) String() string {
 }
 
 var (
-	ringExhLen = 0
-	bufExhLen  = 0
+	ringExhLen  = 0
+	ringExhInit = 0
+	bufExhLen   = 0
 )
 
 func plan() []group {
@@ -59,8 +60,9 @@ func plan() []group {
 	add("ring-seeded", mon.Pick(400, 10000), mon.Pick(50, 100))
 	ringExhLen = mon.Pick(5, 6)
 	A := len(ringAlphabet)
-	for a := 0; a <= 3; a++ {
-		for b := 0; b <= 3; b++ {
+	ringExhInit = 3
+	for a := 0; a <= ringExhInit; a++ {
+		for b := 0; b <= ringExhInit; b++ {
 			for c := 0; c < A*A; c++ {
 				gs = append(gs, group{kind: "ring-exh", a: a, b: b, c: c, n: ringExhLen})
 			}
@@ -110,7 +112,7 @@ func TestCheck(t *testing.T) {
 		"ring.exhaustive.link_same_ring", "ring.exhaustive.link_other_ring", "ring.exhaustive.unlink_calls",
 		"buffered.exhaustive.grow_events", "buffered.exhaustive.shrink_events", "buffered.seeded.grow_events", "buffered.seeded.shrink_events", "buffered.seeded.range_stopped_early",
 		"selftest.models_ok"})
-	rec.Note("exhaustive", fmt.Sprintf("ring: all %d^%d sequences over the reduced alphabet from 16 initial states; buffered: all valid AppendBack/RemoveFront sequences of length %d for the 36 size pairs. The linearizability part is sampled, not exhaustive.", len(ringAlphabet), ringExhLen, bufExhLen))
+	rec.Note("exhaustive", fmt.Sprintf("ring: all %d^%d sequences over the reduced alphabet from each of the %d initial states (New(a),New(b)), a,b in 0..%d; buffered: all valid AppendBack/RemoveFront sequences of length %d for the 36 size pairs. The linearizability part is sampled, not exhaustive.", len(ringAlphabet), ringExhLen, (ringExhInit+1)*(ringExhInit+1), ringExhInit, bufExhLen))
 	rec.Note("gomaxprocs", runtime.GOMAXPROCS(0))
 	timing := map[string]time.Duration{}
 	defer func() {
